@@ -83,7 +83,7 @@ package tacquito
 //@   requires h != nil
 //@   modifies *h
 //@   ensures[C04] (err == nil) == (len(data) >= 12 && valid.Header(*h))
-//@   ensures[C01,C04] len(data) >= 12 ==> h.Version.MajorVersion == data[0] div 16 && h.Version.MinorVersion == data[0] mod 16
+//@   ensures[C01,C03,C04,C06] len(data) >= 12 ==> h.Version.MajorVersion == data[0] div 16 && h.Version.MinorVersion == data[0] mod 16
 //@        && h.Type == data[1] && h.SeqNo == data[2] && h.SessionID == u32at(data, 4) && h.Length == u32at(data, 8)
 //@        && h.Flags == (data[2] == 2 ? data[3] - (data[3] div 4) mod 2 * 4 + 4 : data[3])
 //@   also
@@ -689,6 +689,13 @@ package tacquito
 //@   ghostset rdFailed 0
 //@   after[C17] crypter.read : ghost.rdFailed = (ret1 != nil ? 1 : 0)
 //@   after[C09] sessions.get : ghost.gotH = ret0
+//@   ghostset seqRejected 0
+//@   ghostset seqChecked 0
+//@   after[C07,C08] sessions.get : ghost.seqRejected = (ret1 != nil ? 1 : 0)
+//@   after[C07,C08] sessions.get : ghost.seqChecked = 1
+//@   after[C07,C08] Handler.Handle : ghost.seqChecked = 0
+//@   before[C07,C08] Handler.Handle : ghost.seqChecked == 1 && ghost.seqRejected == 0
+//@   before[C07,C08] sessions.get : arg0 == sessionProvider && arg1 == req.Header
 //@   before[C09] Handler.Handle : (ghost.gotH != nil ==> arg0 == ghost.gotH) && (ghost.gotH == nil ==> arg0 == h)
 //@   before[C09] Handler.Handle : typeOf(arg1) == *response && arg1.(*response) == resp
 //@   before[C09] Handler.Handle : fresh(resp)
@@ -703,7 +710,7 @@ package tacquito
 //@   requires c != nil && c.Conn != nil && c.Reader != nil && !c.proxy
 //@   taints[C18] c.secret 4
 //@   requires[C05] ghost.sync == 1
-//@   modifies ghost.inPos, ghost.nwrites, ghost.written, ghost.md5acc, ghost.gauge, ghost.armed, ghost.dead, ghost.reads, ghost.handled, ghost.replies, ghost.closed, ghost.sync, ghost.hcalls, ghost.authorStatus, ghost.authenPass, ghost.acctStatus, ghost.sinkWrites, ghost.sinkAtReply, ghost.scopeArg, ghost.cmpOK, ghost.cmpCalls, ghost.lookups, ghost.lookedUp, ghost.lastJSON, ghost.rdFailed, ghost.gotH
+//@   modifies ghost.inPos, ghost.nwrites, ghost.written, ghost.md5acc, ghost.gauge, ghost.armed, ghost.dead, ghost.reads, ghost.handled, ghost.replies, ghost.closed, ghost.sync, ghost.hcalls, ghost.authorStatus, ghost.authenPass, ghost.acctStatus, ghost.sinkWrites, ghost.sinkAtReply, ghost.scopeArg, ghost.cmpOK, ghost.cmpCalls, ghost.lookups, ghost.lookedUp, ghost.lastJSON, ghost.rdFailed, ghost.gotH, ghost.seqRejected, ghost.seqChecked
 //@   ensures[C07,C17] ghost.closed == old(ghost.closed) + 1
 //@   ensures[C07] ghost.handled - old(ghost.handled) <= ghost.reads - old(ghost.reads)
 //@   ensures[C07] ghost.replies - old(ghost.replies) == ghost.handled - old(ghost.handled)
@@ -712,6 +719,7 @@ package tacquito
 //@   loop 1 invariant[C08,C20] allLive(sessionProvider)
 //@   loop 1 invariant[C07] ghost.closed == old(ghost.closed)
 //@   loop 1 invariant[C17] ghost.rdFailed == 0
+//@   loop 1 invariant[C07,C08] ghost.seqRejected == 0 && ghost.seqChecked == 0
 //@   loop 1 invariant[C05] ghost.sync == 1
 //@   loop 1 invariant[C07] ghost.reads - old(ghost.reads) == ghost.handled - old(ghost.handled)
 //@   loop 1 invariant[C07] ghost.replies - old(ghost.replies) == ghost.handled - old(ghost.handled)
@@ -734,7 +742,7 @@ package tacquito
 //@   ensures[C18] true
 //@   requires s != nil && s.loggerProvider != nil && s.SecretProvider != nil && ctx != nil && conn != nil && !s.proxy
 //@   requires[C05] ghost.sync == 1
-//@   modifies s.waitGroup.active, ghost.inPos, ghost.nwrites, ghost.written, ghost.md5acc, ghost.gauge, ghost.armed, ghost.dead, ghost.reads, ghost.handled, ghost.replies, ghost.closed, ghost.wgDones, ghost.sync, ghost.hcalls, ghost.authorStatus, ghost.authenPass, ghost.acctStatus, ghost.sinkWrites, ghost.sinkAtReply, ghost.scopeArg, ghost.cmpOK, ghost.cmpCalls, ghost.lookups, ghost.lookedUp, ghost.lastJSON, ghost.rdFailed, ghost.gotH, ghost.admitted, ghost.pgets, ghost.admits
+//@   modifies s.waitGroup.active, ghost.inPos, ghost.nwrites, ghost.written, ghost.md5acc, ghost.gauge, ghost.armed, ghost.dead, ghost.reads, ghost.handled, ghost.replies, ghost.closed, ghost.wgDones, ghost.sync, ghost.hcalls, ghost.authorStatus, ghost.authenPass, ghost.acctStatus, ghost.sinkWrites, ghost.sinkAtReply, ghost.scopeArg, ghost.cmpOK, ghost.cmpCalls, ghost.lookups, ghost.lookedUp, ghost.lastJSON, ghost.rdFailed, ghost.gotH, ghost.seqRejected, ghost.seqChecked, ghost.admitted, ghost.pgets, ghost.admits
 //@   ensures[C17,C20] ghost.wgDones == old(ghost.wgDones) + 1
 //@   ensures[C07,C13,C17] ghost.closed == old(ghost.closed) + 1
 //@   ensures[C20] ghost.gauge == upd(old(ghost.gauge), waitgroupActive, old(ghost.gauge)[waitgroupActive] - 1)
